@@ -63,3 +63,15 @@ def scratch_dir():
 def settle():
     """Let pending finalisers run (dropped Functions give their references back)."""
     gc.collect()
+
+
+_unraisable = []
+
+
+def _hook(u):
+    """Finalisers of half-constructed library objects (e.g. a Function whose constructor
+    refused the node) print 'Exception ignored'; record instead of printing."""
+    _unraisable.append(repr(u.exc_value)[:120])
+
+
+sys.unraisablehook = _hook
